@@ -155,6 +155,18 @@ func (v *parser_) formatError(token TokenLike) string {
 	return message
 }
 
+func (v *parser_) formatMismatch(token TokenLike, context string) string {
+	// The items of a catalog or map must be associations.
+	var message = v.formatError(token)
+	message += "The items of a " + context + " must be associations.\n"
+	message += v.generateSyntax("Associations",
+		"Items",
+		"Associations",
+		"Association",
+	)
+	return message
+}
+
 func (v *parser_) generateSyntax(expected string, names ...string) string {
 	var message = "Was expecting '" + expected + "' from:\n"
 	for _, name := range names {
@@ -286,7 +298,10 @@ func (v *parser_) parseCollection() (
 	case "Catalog":
 		var catalog = col.Catalog[any, any](notation).Make()
 		for _, item := range sequence.AsArray() {
-			var association = item.(col.AssociationLike[any, any])
+			var association, isAssociation = item.(col.AssociationLike[any, any])
+			if !isAssociation {
+				panic(v.formatMismatch(token, context))
+			}
 			var key = association.GetKey()
 			var value = association.GetValue()
 			catalog.SetValue(key, value)
@@ -295,7 +310,10 @@ func (v *parser_) parseCollection() (
 	case "Map":
 		var map_ = col.Map[any, any](notation).Make()
 		for _, item := range sequence.AsArray() {
-			var association = item.(col.AssociationLike[any, any])
+			var association, isAssociation = item.(col.AssociationLike[any, any])
+			if !isAssociation {
+				panic(v.formatMismatch(token, context))
+			}
 			var key = association.GetKey()
 			var value = association.GetValue()
 			map_.SetValue(key, value)
